@@ -190,7 +190,7 @@ func randomClient(r *rand.Rand, dup bool) []Step {
 	n := 2 + r.Intn(9)
 	for i := 0; i < n; i++ {
 		switch k := r.Intn(100); {
-		case k < 38:
+		case k < 34:
 			out = append(out, Step{Who: "c", Op: "start", ID: started})
 			started++
 		case k < 42:
